@@ -114,7 +114,7 @@ SPEC = r"""
             &&& (op is Or ==> r == Ok::<Value, Error>(Value::Bool(a || b)))
         }), // [C16:and_or_on_two_bools]
         // ---- C11: concatenation has the elements of s then t, in a fresh container
-        (op is Sum && lhs is Str && rhs is Str) ==> (r matches Ok(v) && (v matches Value::Str(o) && o@ == lhs->Str_0@ + rhs->Str_0@)), // [C11:string_concatenation_is_the_bytes_of_s_then_t]
+        (op is Sum && lhs is Str && rhs is Str) ==> (r matches Ok(v) && (v matches Value::Str(o) && o@ == lhs->Str_0@ + rhs->Str_0@)), // [C11_C15:string_concatenation_is_the_bytes_of_s_then_t]
         (op is Sum && lhs is List && rhs is List) ==> (r matches Ok(v) && (v matches Value::List(o) && o.0.0@ == lhs->List_0.0.0@ + rhs->List_0.0.0@)), // [C11_C14:list_concatenation_is_the_elements_of_s_then_t_each_with_its_provenance]
         // ---- C10: == / != share one structural answer and negate it; a mismatch inside is an error naming both types
         (op is Eq || op is Ne) ==> (match sem_eq(*lhs, *rhs) {
@@ -168,7 +168,7 @@ def build(read):
         raise Undecided("apply_binary_operation: closure new_int_overflow not found")
     b.edits.append("annotation: closures `new_invalid_op_types`, `new_int_overflow` given named results and literal postconditions")
     body_start = ("    proof {\n        if lhs is Int && rhs is Int {\n            let a = lhs->Int_0; let b = rhs->Int_0;\n            if b != 0 { lemma_vstd_div_is_trunc(a as int, b as int); lemma_quotient_fits(a as int, b as int); lemma_trunc_laws(a as int, b as int); }\n        }\n    }\n")
-    f = extract.annotate_fn(f, spec=SPEC, body_start=body_start)
+    f = extract.annotate_fn(f, spec=SPEC, attrs="#[verifier::exec_allows_no_decreases_clause]\n", body_start=body_start)
     f2 = extract.annotate_fn(f2, spec=SPEC_REFEQ)
     b.edits.append("D4: `format!` opaque; `panic!(\"unexpected operation\")` arms must be proved unreachable by Verus")
     b.text = assemble([
